@@ -55,7 +55,8 @@ func getIPv6HopByHopJumboLength(hopopts *IPv6HopByHop) (uint32, bool, error) {
 	var tlv *IPv6HopByHopOption
 
 	for _, t := range hopopts.Options {
-		if t.OptionType == IPv6HopByHopOptionJumbogram {
+		// a nil option is reported when the header is serialized
+		if t != nil && t.OptionType == IPv6HopByHopOptionJumbogram {
 			tlv = t
 			break
 		}
@@ -88,7 +89,7 @@ func addIPv6JumboOption(ip6 *IPv6) {
 		ip6.NextHeader = IPProtocolIPv6HopByHop
 	}
 	for _, t := range ip6.HopByHop.Options {
-		if t.OptionType == IPv6HopByHopOptionJumbogram {
+		if t != nil && t.OptionType == IPv6HopByHopOptionJumbogram {
 			tlv = t
 			break
 		}
